@@ -223,6 +223,9 @@ impl Lintable for Statement
 			{
 				linter.is_first_statement_of_branch = None;
 
+				condition.left.lint(linter);
+				condition.right.lint(linter);
+
 				linter.is_naked_branch = Some(NakedBranch {
 					location_of_condition: condition.location.clone(),
 				});
